@@ -1122,6 +1122,12 @@ func (c *Ctx) ruleFreeListShrink(id string) {
 									plusOne = true
 								}
 							}
+							// through a helper's parameters (putBetween(idx-1, idx, mid)): base value and constant offset
+							if hb, ho := affineOf(h); hb != nil {
+								if lb, lo := affineOf(l); lb == hb && (lo == ho || lo == ho+1) {
+									same = true
+								}
+							}
 							if !same && !plusOne {
 								bad = "append(s[:h], s[l:]...) with l not in {h, h+1}: more than one interval is dropped from the free list"
 							}
@@ -1282,4 +1288,31 @@ func armIdx(c *Ctx, o *outbound, cl *core.Call) int {
 		return -1
 	}
 	return tgt.pktIdx - off
+}
+
+// affineOf writes an integer value as base + constant, seeing through conversions, ±constant and the parameters of
+// helpers with one call site (the argument passed there).
+func affineOf(v ssa.Value) (ssa.Value, int64) {
+	off := int64(0)
+	for i := 0; i < 12; i++ {
+		v = deepStrip(v)
+		bo, ok := v.(*ssa.BinOp)
+		if !ok {
+			return v, off
+		}
+		k, isK := constInt(bo.Y)
+		if !isK {
+			return v, off
+		}
+		switch bo.Op {
+		case token.ADD:
+			off += k
+		case token.SUB:
+			off -= k
+		default:
+			return v, off
+		}
+		v = bo.X
+	}
+	return v, off
 }
